@@ -634,3 +634,107 @@ def a4b(prog):
         if bad:
             findings.append({"key": key, "where": fs[0]["l"], "msg": "three-valued %s on predicate results is wrong: %s" % (opname[8:], "; ".join(bad[:3])), "detail": None})
     return inst, findings
+
+
+def a8(prog):
+    """a predicate that reports an error answers `fail`: in every function returning pred_result, forward dataflow over the CFG with the
+    state (an "Error…" message was written to std::cerr on this path, constant held by each local pred_result variable); a return that is
+    reached with the error flag set and a value that is provably `yes` or `no` violates `neither ?X nor !X holds when X reports an error`."""
+    from cfg import CFG
+    from zw import walk_nolambda
+    inst, findings = [], []
+
+    def direct_report(e):
+        has_cerr = has_err = False
+        for x in walk_nolambda(e):
+            if x.get("k") == "ref" and x.get("q") == "std::cerr":
+                has_cerr = True
+            if x.get("k") == "str" and isinstance(x.get("v"), str) and x["v"].lstrip().startswith("Error"):
+                has_err = True
+        return has_cerr and has_err
+    # functions that always report when called (every path from entry writes the message): only straight-line helpers are taken
+    reporters = set()
+    grew = True
+    while grew:
+        grew = False
+        for f in prog.funcs.values():
+            b = f.get("body")
+            if f["fid"] in reporters or not b or f.get("ret") != "void" or b.get("k") != "block":
+                continue
+            for st in b["s"]:
+                if st.get("k") in ("if", "while", "for", "do", "switch", "try"):
+                    continue
+                if direct_report(st) or any(x.get("k") == "call" and x.get("fid") in reporters for x in walk_nolambda(st)):
+                    reporters.add(f["fid"])
+                    grew = True
+                    break
+
+    def reports(e):
+        if direct_report(e):
+            return True
+        for x in walk_nolambda(e):
+            if x.get("k") == "call" and x.get("fid") in reporters:
+                return True
+        return False
+
+    def const_of(e, env):
+        while isinstance(e, dict) and e.get("k") in ("ctor", "cast", "paren") and len(e.get("a", [e.get("e")])) == 1:
+            e = (e.get("a") or [e.get("e")])[0]
+        if isinstance(e, dict) and e.get("k") == "ref":
+            if e.get("d") == "enum" and (e.get("q") or "").startswith("pred_result::"):
+                return e["n"]
+            if e.get("d") == "local":
+                return env.get(e["id"], "?")
+        return "?"
+    nfun = nrep = 0
+    for f in sorted(prog.funcs.values(), key=lambda f: f["fid"]):
+        if f.get("ret") != "pred_result" or not f.get("body") or "/test" in f.get("file", "") or "test-" in f.get("file", ""):
+            continue
+        nfun += 1
+        if not any(reports(x) for x in [f["body"]]):
+            continue
+        nrep += 1
+        g = CFG(f)
+        states = {g.entry.id: {(False, ())}}
+        work = [g.entry.id]
+        bad = {}
+        while work:
+            nid = work.pop()
+            n = g.nodes[nid]
+            outs = set()
+            for rep_, envt in states[nid]:
+                env = dict(envt)
+                a = n.ast
+                if isinstance(a, dict) and n.kind in ("stmt", "cond", "ret", "switch"):
+                    if n.kind != "ret" or True:
+                        if reports(a):
+                            rep_ = True
+                    if a.get("k") == "decl":
+                        for v in a.get("vars", []):
+                            if v.get("t") in ("pred_result", "const pred_result"):
+                                env[v["id"]] = const_of(v.get("init"), env) if v.get("init") is not None else "?"
+                    else:
+                        for x in walk_nolambda(a):
+                            if x.get("k") == "asg" and isinstance(x.get("lhs"), dict) and x["lhs"].get("k") == "ref" and x["lhs"].get("id") in env:
+                                env[x["lhs"]["id"]] = const_of(x.get("rhs"), env) if x.get("op") == "=" else "?"
+                            elif x.get("k") == "un" and x.get("op") == "&" and isinstance(x.get("e"), dict) and x["e"].get("id") in env:
+                                env[x["e"]["id"]] = "?"
+                    if n.kind == "ret":
+                        v = const_of(a, env)
+                        if rep_ and v in ("yes", "no"):
+                            bad.setdefault(n.loc, v)
+                outs.add((rep_, tuple(sorted(env.items()))))
+            for t, lab in n.succs:
+                cur = states.setdefault(t, set())
+                if not outs <= cur:
+                    cur |= outs
+                    work.append(t)
+        key = "A8:" + f["q"]
+        inst.append((key, {"cfg_nodes": len(g.nodes)}))
+        for loc, v in sorted(bad.items()):
+            findings.append({"key": key, "where": "libzwerg/" + str(loc),
+                             "msg": "%s answers `%s` on a path that has reported an error to std::cerr: with `?x` and `!x` built from the same "
+                                    "predicate one of them then holds although x itself failed (an erroring predicate must answer fail so that neither holds)" % (f["q"], v),
+                             "detail": None})
+    inst.append(("A8:functions", {"returning_pred_result": nfun, "reporting": nrep}))
+    return inst, findings
